@@ -174,6 +174,20 @@ def run(ctx) -> None:
                 mfi.loc,
                 {"effects": sorted(sig)},
             )
+            # argument roles: the element added to / removed from a watch's handler set is the handler parameter, the key is the watch
+            hparam = ([a.arg for a in mfi.node.args.args if a.arg != "self"] or [""])[0]
+            if mname in ("schedule", "add_handler_for_watch", "remove_handler_for_watch"):
+                for c, op, k, e in registry_effects(p.evs):
+                    if c != "h":
+                        continue
+                    elem = (e.extra.get("args") or [""])[0]
+                    ctx.check(
+                        elem == hparam and not re.search(rf"\b{re.escape(hparam)}\b", k),
+                        RC,
+                        f"{mname} handler set roles [{p.sig()[:60]}]",
+                        f"{mname}() files `{elem}` under the key `{k[:60]}`: the handler registry maps a watch to its handlers, the element must be the handler parameter `{hparam}` and the key the watch",
+                        mfi.loc,
+                    )
             ctx.check(
                 sig in allowed,
                 RC,
@@ -254,6 +268,7 @@ VARIANTS = [
     dict(name="B handler registered before the emitter exists", expect="fire", rule="C13/failed-call-atomicity", edits=[(API, "            watch = ObservedWatch(path, recursive=recursive, event_filter=event_filter, follow_symlink=follow_symlink)\n", "            watch = ObservedWatch(path, recursive=recursive, event_filter=event_filter, follow_symlink=follow_symlink)\n            self._add_handler_for_watch(event_handler, watch)\n")]),
     dict(name="B handler registered between construction and start", expect="fire", rule="C13/failed-call-atomicity", edits=[(API, "                if self.is_alive():\n                    emitter.start()\n                self._add_emitter(emitter)", "                self._add_handler_for_watch(event_handler, watch)\n                if self.is_alive():\n                    emitter.start()\n                self._add_emitter(emitter)")]),
     dict(name="B emitter registered before start", expect="fire", rule="C13/failed-call-atomicity", edits=[(API, "                if self.is_alive():\n                    emitter.start()\n                self._add_emitter(emitter)", "                self._add_emitter(emitter)\n                if self.is_alive():\n                    emitter.start()")]),
+    dict(name="B add_handler_for_watch swaps handler and watch", expect="fire", rule="C13/coherent-effects", edits=[(API, "        with self._lock:\n            self._add_handler_for_watch(event_handler, watch)", "        with self._lock:\n            self._add_handler_for_watch(watch, event_handler)")]),
     dict(name="B drop _watches.add", expect="fire", rule="C13/coherent-effects", edits=[(API, "            self._watches.add(watch)\n        return watch", "        return watch")]),
     dict(name="B drop emitter-map membership test", expect="fire", rule="C13/", edits=[(API, "            if watch not in self._emitter_for_watch:", "            if True:")]),
     dict(name="B unschedule forgets _watches", expect="fire", rule="C13/coherent-effects", edits=[(API, "            self._remove_emitter(emitter)\n            self._watches.remove(watch)", "            self._remove_emitter(emitter)")]),
